@@ -67,10 +67,27 @@ def one(seed):
     w.expected_tol = rnd.choice([1e-5, 1e-4, 1e-3, 1e-2])
     verbose = rnd.choice([0, 0, 1, 2, -1])          # the calls made to the solver must not depend on the verbosity
     raises = False; ret = None
+    # two programs in five go through the public front-end `PEP.solve(wrapper=<name>, ...)` with the registry of wrappers
+    # pointing at the scripted wrapper: the front-end (name resolution, fallback to cvxpy when the requested back-end is not
+    # installed or not licensed) must hand every option on unchanged, so the flow is the one of `_solve_with_wrapper`
+    import importlib.util, PEPit.pep as pepmod
+    front = None
+    if rnd.random() < .4:
+        names = ["cvxpy", "CVXPY", "Cvxpy"] + (["mosek", "MOSEK"] if importlib.util.find_spec("mosek") is None else [])
+        front = rnd.choice(names)
     try:
         with contextlib.redirect_stdout(io.StringIO()):
-            ret = pep._solve_with_wrapper(w, verbose=verbose, return_primal_or_dual=mode, tol_dimension_reduction=w.expected_tol,
-                                          dimension_reduction_heuristic=None if heur == "none" else heur)
+            if front is None:
+                ret = pep._solve_with_wrapper(w, verbose=verbose, return_primal_or_dual=mode, tol_dimension_reduction=w.expected_tol,
+                                              dimension_reduction_heuristic=None if heur == "none" else heur)
+            else:
+                saved = dict(pepmod.WRAPPERS)
+                try:
+                    pepmod.WRAPPERS["cvxpy"] = lambda verbose=0: w
+                    ret = pep.solve(wrapper=front, verbose=max(verbose, 0), return_primal_or_dual=mode, tol_dimension_reduction=w.expected_tol,
+                                    dimension_reduction_heuristic=None if heur == "none" else heur)
+                finally:
+                    pepmod.WRAPPERS.clear(); pepmod.WRAPPERS.update(saved)
     except ValueError:
         raises = True
     if fail:
